@@ -87,6 +87,38 @@ theorem regions_concat (h : Hooks) (bs : Bytes) (tbl : List FlashRegion) : ∀ (
     rw [← List.drop_drop]
     exact List.take_append_drop _ _
 
+/-- every region of the list is a faithful region at some offset -/
+theorem regionsAt_mem (h : Hooks) (bs : Bytes) (tbl : List FlashRegion) : ∀ (rs : List Region) (off : Nat),
+    RegionsAt h bs tbl rs off → ∀ r ∈ rs, ∃ o, RegionF h bs tbl r o := by
+  intro rs
+  induction rs with
+  | nil => intro off _ r hr; cases hr
+  | cons x xs ih =>
+    intro off hr r hm
+    simp only [RegionsAt] at hr
+    cases hm with
+    | head => exact ⟨off, hr.1⟩
+    | tail _ hm => exact ih _ hr.2 r hm
+
+/-- **the ME region of a faithful flash image**: its buffer is the input slice the descriptor's table
+    entry 1 names, and the partition table Go reports for it is faithful to those bytes -/
+theorem me_region (h : Hooks) (f : Flash) (bs : Bytes) (hf : FlashF h f bs) :
+    ∀ r ∈ f.regions, ∀ b fr, r = .me b fr →
+      b = slice bs fr.baseOffset b.length ∧ fr.baseOffset + b.length ≤ bs.length ∧
+      fr.endOffset = fr.baseOffset + b.length ∧ f.ifd.region.regions[1]? = some fr ∧ Me.MeBufF b := by
+  intro r hr b fr hrb
+  obtain ⟨_, _, _, _, hregs⟩ := hf
+  obtain ⟨o, hrf⟩ := regionsAt_mem h bs _ _ _ hregs r hr
+  subst hrb
+  unfold RegionF at hrf
+  obtain ⟨_, hin, hbuf, ⟨fr', hfr, hbase, hdecl⟩, hinner⟩ := hrf
+  simp only [Region.fr, Option.some.injEq] at hfr
+  subst hfr
+  simp only [Region.buf] at hin hbuf
+  obtain ⟨hend, htbl⟩ := hdecl (by simp [Region.rtype])
+  simp only [Region.buf, Region.rtype] at hend htbl
+  refine ⟨by rw [hbase]; exact hbuf, by rw [hbase]; exact hin, by rw [hbase]; exact hend, htbl, hinner⟩
+
 /-- **descriptor plus regions tile the flash without gap or overlap** -/
 theorem flash_tiles (h : Hooks) (f : Flash) (bs : Bytes) (hf : FlashF h f bs) :
     f.ifd.buf ++ (f.regions.map Region.buf).flatten = bs := by
